@@ -27,7 +27,7 @@ PKG = "asl-workflow-engine/py/asl_workflow_engine"
 OUT = os.path.join(VERIF, "run", "mutation")
 
 CHECKS_FOR = {
-    "state_engine.py": ["C01", "C02", "C03", "C04", "C05", "C06", "C07", "C08", "C09", "C11", "C14", "C15", "C16", "C17", "C18"],
+    "state_engine.py": ["C01", "C02", "C03", "C04", "C05", "C06", "C07", "C08", "C09", "C11", "C14", "C15", "C16", "C17", "C18", "C20", "C13", "C12"],
     "task_dispatcher.py": ["C03", "C04", "C06", "C07", "C08", "C15", "C16", "C17", "C19", "C02"],
     "event_dispatcher.py": ["C03", "C04", "C18", "C19", "C02", "C11"],
     "state_engine_paths.py": ["C12", "C13", "C01", "C14"],
